@@ -709,6 +709,9 @@ def main():
         g = make_gen(rng, {"autoescape": False, "strings_with_meta": True, "break": False}, 1 + rng.below(3), engine_only=True)
         ctx, kinds = evil_context(rng)
         body = proggen.body_src(g.template(kinds))
+        if j < 3:
+            # fixed regression bodies, always run: raw text with quotes only / with every metacharacter / nothing to escape
+            body = ["say \"hi\", it's {{ n }}", "[{{ h }}|{{ q }}|{{ s }}]{{ \"it's\" }}", "plain {{ n }}"][j]
         rt_reqs.append(req({"main.html": body}, "main.html", ctx, True))
         rt_meta.append(("plain", body, ctx, None))
         for lab, t, mainn in wrappers(body):
